@@ -103,8 +103,24 @@ Definition frame_eqb (a b : frame) : bool :=
   end.
 
 (* what the implementation showed after one call: traced instance (state, traces, result), untraced twin *)
+(* compact form of the observed frame: FSame = "the frame is exactly the labels x names table of the observed Trace
+   (the empty frame for an empty Trace)" *)
+Inductive fobs : Type := FSame | FExplicit (f : frame).
+Definition fobs_ok (x : ftrace) (o : fobs) : bool :=
+  match o with
+  | FSame => frame_eqb (to_dataframe float x)
+                       (if is_empty float x then Ret ([], [], []) else Ret (tr_index x, tr_names x, tr_values x))
+  | FExplicit f => frame_eqb (to_dataframe float x) f
+  end.
+Fixpoint frames_ok (xs : ftraces) (os : list fobs) : bool :=
+  match xs, os with
+  | [], [] => true
+  | x :: xs', o :: os' => fobs_ok x o && frames_ok xs' os'
+  | _, _ => false
+  end.
+
 Record xstep := mkX { x_state : fstate; x_traces : ftraces; x_res : cres; x_twin : fstate; x_twin_res : cres;
-                      x_frames : list frame }.
+                      x_frames : list fobs }.
 
 Record tcase17 := mkCase17 {
   c_scripts : scripts; c_cfg : tcfg; c_span : list Z; c_desc : mdesc;
@@ -120,7 +136,7 @@ Fixpoint run_check (sc : scripts) (cfg : tcfg) (span : list Z) (d : mdesc) (cs :
       let '((s', tr'), r) := f_call sc cfg span d c s tr in
       let '(u', ru) := f_plain_call sc span d c u in
       state_eqb s' (x_state x) && list_eqb trace_eqb tr' (x_traces x) && cres_eqb r (x_res x)
-      && list_eqb frame_eqb (map (to_dataframe float) tr') (x_frames x)
+      && frames_ok tr' (x_frames x)
       && state_eqb u' (x_twin x) && cres_eqb ru (x_twin_res x)
       && run_check sc cfg span d cs' xs' s' tr' u'
   | _, _ => false
